@@ -6,6 +6,7 @@
 #include <array>
 #include <atomic>
 #include <chrono>
+#include <condition_variable>
 #include <cstddef>
 #include <cstdint>
 #include <functional>
@@ -109,6 +110,11 @@ private:
 
     mutable std::mutex sessions_mutex_;
     std::unordered_map<std::string, std::shared_ptr<Session>> sessions_;
+
+    // reader threads that have been started and have not yet left receive_loop
+    std::mutex readers_mutex_;
+    std::condition_variable readers_cv_;
+    std::size_t active_readers_{0};
     std::unordered_map<std::string, std::array<std::uint8_t, 32>> keys_;
 
     void accept_loop();
@@ -123,6 +129,7 @@ private:
     bool send_transport_handshake(SocketHandle socket, const OutboundHandshake& handshake);
     bool receive_transport_handshake_ack(SocketHandle socket, const OutboundHandshake& handshake);
     void teardown_sessions();
+    void start_reader(const PeerId& peer_id, const std::shared_ptr<Session>& session);
     std::optional<std::array<std::uint8_t, 32>> peer_key(const PeerId& peer_id) const;
     static std::string peer_key_string(const PeerId& peer_id);
     bool replace_session(const PeerId& peer_id, const std::shared_ptr<Session>& session);
